@@ -6,6 +6,7 @@ import Fips204.Lemmas.SpecCodec
 import Fips204.Lemmas.SigDecode
 import Fips204.Lemmas.KeyDecode
 import Fips204.Lemmas.VerifyOk
+import Fips204.Lemmas.GenKeys
 namespace Fips204.Impl
 open Fips204 Fips204.Gen Fips204.K
 
@@ -234,5 +235,108 @@ theorem w1Encode_is_algorithm_28 (m : Mode) (p : ParamSet)
     rw [flatten_len_const (32 * bl) _ hcr, List.length_map, hsh.1, Nat.mul_left_comm, Nat.mul_assoc]
   rw [if_neg (by rw [hfl, hlen]; omega), pure_eq, hfl, hlen, Nat.sub_self]
   simp [Spec.w1Encode, hwb]
+
+
+/-! ### pkEncode, skEncode -/
+
+theorem mapM_eq_map {α β} (f : α → M β) (g : α → β) : ∀ l : List α, (∀ r ∈ l, f r = .ok (g r)) → l.mapM f = .ok (l.map g) := by
+  intro l
+  induction l with
+  | nil => intro _; rfl
+  | cons r rs ih =>
+    intro h
+    rw [List.mapM_cons, h r List.mem_cons_self, ok_bind, ih (fun x hx => h x (List.mem_cons_of_mem _ hx))]; rfl
+
+/-- **`pk_encode` is FIPS 204 Algorithm 22 (`pkEncode`) as written**, on every `t1` with coefficients in `[0, 1023]` -/
+theorem pkEncode_is_algorithm_22 (m : Mode) (p : ParamSet) (rho : List Nat) (t1 : List Poly) (hr : rho.length = 32)
+    (hcfg : p.pkLen = 32 + 32 * p.k * blqd) (hs : Sh p.k t1) (ht : ∀ q ∈ t1, ∀ x ∈ q, 0 ≤ x ∧ x ≤ 1023) :
+    pkEncode m p rho t1 = .ok (Spec.pkEncode rho t1) := by
+  have hq : blqd = 10 := by decide
+  have e1023 : (2:Int) ^ blqd - 1 = 1023 := by rw [hq]; decide
+  unfold pkEncode
+  rw [e1023]
+  obtain ⟨bs, hbs, _, hbt⟩ := mapM_ok_len (fun t => isInRange m t 0 1023) (fun r => r ∈ t1) (fun b => b = true)
+    (fun r hr' => ⟨true, isInRange_true m r 0 1023 (by omega) (fun c hc => by have := ht r hr' c hc; omega), rfl⟩) t1 (fun a ha => ha)
+  have hall : bs.all id = true := by rw [List.all_eq_true]; intro b hb'; exact hbt b hb'
+  simp only [hbs, ok_bind, pure_eq, hall, dassertM_true]
+  rw [dassert_dec m _ _ (by simp [hcfg]), ok_bind, if_neg (by omega)]
+  have hb10 : bitLen m 1023 = .ok 10 := by have := bitLen_1023 m; simpa using this
+  have htake : t1.take p.k = t1 := List.take_of_length_le (by rw [hs.1]; exact Nat.le_refl _)
+  have hrow : ∀ r ∈ t1, simpleBitPack m r 1023 (32 * blqd) = .ok (Spec.simpleBitPack 10 r) := by
+    intro r hr'
+    rw [hq]
+    unfold simpleBitPack
+    have dd1 := dassert_dec m "conversion.rs:simple_bit_pack:debug_assert(Alg 16: b out of range)" (decide ((1:Int) ≤ 1023) && decide ((1023:Int) < 1048576)) (by decide)
+    have dd2 := dassertM_ok m "conversion.rs:simple_bit_pack:debug_assert(Alg 16: w out of range)" _
+      (isInRange_true m r 0 1023 (by omega) (fun c hc => by have := ht r hr' c hc; omega))
+    rw [dd1, ok_bind, dd2, ok_bind]
+    simp only [hb10, ok_bind, pure_eq, beq_self_eq_true, dassertM_true]
+    exact bitPack_is_algorithm_16 m r 1023 10 (by omega) (bitLen_1023 m) (by omega) (by decide)
+      (fun c hc => by have := ht r hr' c hc; omega) (hs.2 r hr')
+  rw [htake, mapM_eq_map _ _ t1 hrow, ok_bind]
+  have hfl : ((t1.map (fun t => Spec.simpleBitPack 10 t)).flatten).length = 32 * p.k * 10 := by
+    have hcr : ∀ o ∈ t1.map (fun r => Spec.simpleBitPack 10 r), o.length = 320 := by
+      intro o ho; obtain ⟨r, _, rfl⟩ := List.mem_map.mp ho
+      unfold Spec.simpleBitPack; exact bitsToBytes_len _ _
+    rw [flatten_len_const 320 _ hcr, List.length_map, hs.1]; omega
+  unfold Spec.pkEncode
+  rw [hcfg, hq, hfl]
+  have e0 : 32 + 32 * p.k * 10 - 32 - 32 * p.k * 10 = 0 := by omega
+  rw [e0]
+  simp only [List.replicate_zero, List.append_nil, pure_eq]
+  congr 1
+  apply List.take_of_length_le
+  rw [List.length_append, hr, hfl]
+  exact Nat.le_refl _
+
+/-- **`sk_encode` is FIPS 204 Algorithm 24 (`skEncode`) as written**, on every in-range `(s1, s2, t0)` -/
+theorem skEncode_is_algorithm_24 (m : Mode) (p : ParamSet) (he : p.eta = 2 ∨ p.eta = 4) (bl : Nat) (hbl : bitLen m (2 * p.eta) = .ok bl)
+    (hcfg : p.skLen = 128 + 32 * ((p.k + p.l) * bl + D.toNat * p.k)) (s : SkParts)
+    (hr : s.rho.length = 32) (hk : s.key.length = 32) (ht : s.tr.length = 64)
+    (h1 : VecIn p.l (-p.eta) p.eta s.s1) (h2 : VecIn p.k (-p.eta) p.eta s.s2) (h0 : VecIn p.k (-(top - 1)) top s.t0) :
+    skEncode m p s = .ok (Spec.skEncode bl p.eta s.rho s.key s.tr s.s1 s.s2 s.t0) := by
+  obtain ⟨out, hout, holen⟩ := skEncode_ok m p he bl hbl hcfg s hr hk ht h1 h2 h0
+  obtain ⟨bl', g1, g2, g3, g4⟩ := bitLen_eta m p.eta he
+  rw [hbl] at g1
+  simp only [Except.ok.injEq] at g1
+  subst g1
+  have hD : D.toNat = 13 := by decide
+  have eta0 : 0 < p.eta ∧ p.eta < 1048576 := by rcases he with h | h <;> omega
+  have eta1 : 1 ≤ p.eta ∧ p.eta < 1048576 := by rcases he with h | h <;> omega
+  have htop : top = 4096 := by decide
+  have hpow : p.eta + p.eta < 2 ^ bl := by
+    have b3 : bitLen m (2 + 2) = .ok 3 := of_toOption _ _ (by cases m <;> decide +kernel)
+    have b4 : bitLen m (4 + 4) = .ok 4 := of_toOption _ _ (by cases m <;> decide +kernel)
+    rcases he with h | h
+    · rw [h] at g2 ⊢; rw [b3] at g2; cases g2; decide
+    · rw [h] at g2 ⊢; rw [b4] at g2; cases g2; decide
+  rw [hout]
+  unfold skEncode at hout
+  simp only [] at hout
+  have d1 : dassert m "encodings.rs:sk_encode:debug_assert(Alg 24: incorrect eta)" (decide (p.eta = 2) || decide (p.eta = 4)) = .ok () := by
+    apply dassert_dec; rcases he with h | h <;> simp [h]
+  rw [d1, ok_bind, dassertM_ok m _ _ (mapM_isInRange_true m s.s1 p.eta p.eta (by omega) h1.2), ok_bind,
+    dassertM_ok m _ _ (mapM_isInRange_true m s.s2 p.eta p.eta (by omega) h2.2), ok_bind,
+    dassertM_ok m _ _ (mapM_isInRange_true m s.t0 (top - 1) top (by rw [htop]; omega) h0.2), ok_bind, hbl, ok_bind,
+    dassert_dec m _ _ (by simp [hcfg]), ok_bind, if_neg (by rw [hr, hk, ht]; simp)] at hout
+  have t1' : s.s1.take p.l = s.s1 := List.take_of_length_le (by rw [h1.1.1]; exact Nat.le_refl _)
+  have t2' : s.s2.take p.k = s.s2 := List.take_of_length_le (by rw [h2.1.1]; exact Nat.le_refl _)
+  have t3' : s.t0.take p.k = s.t0 := List.take_of_length_le (by rw [h0.1.1]; exact Nat.le_refl _)
+  have e1 := mapM_eq_map (fun x => bitPack m x p.eta p.eta (32 * bl)) (fun x => Spec.bitPack bl p.eta x) s.s1
+    (fun r hr' => bitPack_is_algorithm_17 m r p.eta p.eta bl eta0 eta1 g2 ⟨g3, g4⟩ hpow (h1.2 r hr') (h1.1.2 r hr'))
+  have e2 := mapM_eq_map (fun x => bitPack m x p.eta p.eta (32 * bl)) (fun x => Spec.bitPack bl p.eta x) s.s2
+    (fun r hr' => bitPack_is_algorithm_17 m r p.eta p.eta bl eta0 eta1 g2 ⟨g3, g4⟩ hpow (h2.2 r hr') (h2.1.2 r hr'))
+  have e3 := mapM_eq_map (fun x => bitPack m x (top - 1) top (32 * 13)) (fun x => Spec.bitPack 13 4096 x) s.t0
+    (fun r hr' => by
+      have := bitPack_is_algorithm_17 m r (top - 1) top 13 (by rw [htop]; omega) (by rw [htop]; omega) (bitLen_t0 m) (by omega)
+        (by rw [htop]; decide) (h0.2 r hr') (h0.1.2 r hr')
+      rw [htop] at this ⊢
+      exact this)
+  rw [t1', t2', t3', e1, ok_bind, e2, ok_bind, hD, e3, ok_bind] at hout
+  unfold Spec.skEncode
+  split at hout
+  · cases hout
+  · rw [pure_eq] at hout
+    exact (ok_inj hout).symm ▸ rfl
 
 end Fips204.Impl
